@@ -539,3 +539,53 @@ def term_kinds(t, acc):
     elif t[0] == "V" and t[3] is not None:
         term_kinds(t[3], acc)
     return acc
+
+
+def has_prim_arg(t, top=True):
+    """a primitive built-in in a type-argument position (outside Java arrays)"""
+    if t[0] == "B":
+        return (not top) and t[2]
+    if t[0] == "A":
+        if t[1] == ARRAY_CID:
+            return any(has_prim_arg(a, a[0] == "B") for a in t[2])
+        return any(has_prim_arg(a, False) for a in t[2])
+    if t[0] == "W" and t[2] is not None:
+        return has_prim_arg(t[2], False)
+    if t[0] == "V" and t[3] is not None:
+        return has_prim_arg(t[3], False)
+    return False
+
+
+def well_bounded(L, b, o):
+    """every type argument (for a projection: its bound) is within the declared bound of its
+    parameter after substituting the other arguments -- judged with the real is_subtype"""
+    tp = L.tp
+    if isinstance(o, tp.ParameterizedType):
+        tmap = o.get_type_variable_assignments()
+        plain = {k: (v.bound if isinstance(v, tp.WildCardType) and v.bound is not None else v) for k, v in tmap.items()}
+        for prm, arg in tmap.items():
+            if isinstance(arg, tp.WildCardType):
+                if arg.bound is None:
+                    continue
+                a = arg.bound
+                if not well_bounded(L, b, a):
+                    return False
+                if arg.variance.is_contravariant():
+                    continue
+            else:
+                a = arg
+                if not well_bounded(L, b, a):
+                    return False
+            if prm.bound is not None:
+                bd = tp.substitute_type(prm.bound, plain)
+                if isinstance(bd, tp.WildCardType):
+                    return False
+                try:
+                    if not (a == bd or a.is_subtype(bd)):
+                        return False
+                except Exception:           # noqa: BLE001
+                    return False
+        return True
+    if isinstance(o, tp.TypeParameter) and o.bound is not None:
+        return well_bounded(L, b, o.bound)
+    return True
